@@ -29,6 +29,10 @@ using namespace sim::asio;
 
 namespace sim
 {
+#ifdef LIBSIMULATOR_VERIF
+	namespace verif { void (*step_hook)(int) = nullptr; }
+#endif
+
 	simulation::simulation(configuration& config)
 		: m_config(config)
 		, m_internal_ios(new asio::io_context(*this))
@@ -52,7 +56,19 @@ namespace sim
 		do {
 
 			m_service.restart();
+#ifdef LIBSIMULATOR_VERIF
+			// verification hook: same as poll(), but reports every boundary
+			// between two handlers to the harness
+			last_executed = 0;
+			while (m_service.poll_one())
+			{
+				++last_executed;
+				if (verif::step_hook) verif::step_hook(verif::after_handler);
+			}
+			if (verif::step_hook) verif::step_hook(verif::before_advance);
+#else
 			last_executed = m_service.poll();
+#endif
 			ret += last_executed;
 
 			chrono::high_resolution_clock::time_point now
